@@ -159,7 +159,7 @@ def before_in_collapsed(I, a, b, top=None):
     return I.g.dominates(I.dominators(), ga, gb)
 
 
-def every_path_to(I, gid, ok_at, depth=12):
+def every_path_to(I, gid, ok_at, depth=400):
     """every taken normal path from the entry to node gid passes through a node satisfying ok_at(gid) (checked backwards over joins)"""
     entry = I.g.entry.bmap[0]
     seen = {}
